@@ -35,6 +35,7 @@ func run(r *vk.Run) {
 
 	unis := universes()
 	sequences(r)
+	sharedMaskSequences(r)
 	exhaustive(r, unis[0])
 	for _, u := range unis {
 		small(r, u)
